@@ -214,6 +214,12 @@ def quantities_equal(w, a, b):
             return True
     except Exception:  # noqa
         pass
+    if a.unit is b.unit or dict(a.unit.factors) == dict(b.unit.factors):
+        # the same unit came back (or the same factors, the prefix folded into the magnitude):
+        # str() prints a magnitude that reads back exactly and == unprefixes both sides, so the
+        # library's own == must hold (a tolerance here would hide a printer that scales the
+        # magnitude differently from the way equality does)
+        return False
     o = oracle(w)
     sa, sb = o.unit_size(a.unit), o.unit_size(b.unit)
     if sa is None or sb is None or a.unit.dimension is not b.unit.dimension:
